@@ -72,6 +72,17 @@ EXPLANATION = (
     'reaching definitions and cell-preserving steps to where its memory comes from: a broadcast / strided view '
     '(np.broadcast_to, np.broadcast_arrays, as_strided) keeps several elements in one cell, so the per-row offset of negative '
     'columns would be written over all rows (violation); behind a reshape / an unfollowed helper the rule answers incomplete. '
+    'Fifth wave (case tables: each loop-free helper is followed symbolically under every case of a finite abstract domain, tests '
+    'evaluated three-valued from their syntactic form, nothing executed): (D1) _handle_negative_indices over one / many rows and '
+    'columns, 0-d / 1-d single entries, no / some negative entries - the negative entries and only those are offset exactly once, by '
+    'ADDING the number of rows / the length of their own row, 0-d indices are made one-dimensional before np.where, no refusal other '
+    'than IndexError is reachable with lengths supplied and the re-test is not decided by the case alone; _convert_from_2d spreads a '
+    'single column over the rows exactly for (several rows, one column) and hands rows / columns to the normalisation in this order; '
+    '(D2/D5) under the None-ness of the optional parameters at the read-path call sites no configuration refusal of '
+    '_convert_from_2d / _convert_from_1d / _slice_to_list is reachable and no omitted parameter is used as a value; (D7) the '
+    'constructor reads nested rows / a flat sequence of scalars / an empty input / flat data plus lengths each as such (which '
+    'statement sets self._data and self.lengths in each case); (D6) shape[1] is the common row length exactly when all rows are '
+    'equally long and the element width is reported exactly for array elements. '
     'Equality with the list-of-rows model for every index expression is not '
     'decided.')
 
@@ -358,6 +369,33 @@ def _xatoms(fi, conds):
             out.append((('expr', x, True), node))
         else:
             out += [(c, node) for c in cs]
+    return out
+
+
+def _named_atoms(fi, conds):
+    """Atoms of conditions that are kept under a name bound once to a test that calls the module's predicate
+    (`rows_given = _is_iterable(array[0])`; `if rows_given:`) - such a call is not a pure temporary for _xatoms."""
+    out = []
+    for test, pol, node in conds:
+        for a in conjuncts(test, pol) or []:
+            if isinstance(a, Cmp) or not isinstance(a[1], ast.Name):
+                continue
+            try:
+                defs = fi.defs_of_use(a[1])
+            except Exception:
+                continue
+            if len(defs) != 1:
+                continue
+            site = next(iter(defs))
+            if site in ('PARAM', 'UNBOUND') or not isinstance(site, ast.Assign):
+                continue
+            v = fi.def_value(site, a[1].id)
+            if v is None or not _pure_pred(v):
+                continue
+            if any(isinstance(m, ast.Name) and isinstance(m.ctx, ast.Load) and fi.rd.defs_at(site, m.id) != fi.rd.defs_at(node, m.id)
+                   for m in walk_expr(v)):
+                continue
+            out += [(c, node) for c in (conjuncts(v, a[2]) or [])]
     return out
 
 
@@ -734,6 +772,7 @@ def d1_bounds(ck, mod):
     if len(ps) < 4:
         ck.missing(rule, '_convert_from_2d(index, lengths, starts, error_check): parameters not recognised (%s)' % ', '.join(ps))
         return
+    conv2d_cases(ck, mod)
     L, S, EC = ps[1], ps[2], ps[3]
     d = param_default(fn, EC)
     ck.check(const_value(d) is True, rule + '.default', mod, fn, F, '%s=%s' % (EC, u(d)),
@@ -1017,6 +1056,7 @@ def d1_negatives(ck, mod):
         ck.missing(rule, '_handle_negative_indices(rows, columns, lengths, starts): parameters not recognised')
         return
     R, Cn, L, S = ps[:4]
+    neg_cases(ck, mod)
     scope = _value_scope(fi, fh)
     guards = [x for x in walk_local(fh) if isinstance(x, ast.If) and any(_raises(y, 'IndexError') for y in x.body)]
 
@@ -1426,6 +1466,7 @@ def _reads_slice_fields(fn, slice_param):
 
 def d2_slices(ck, mod):
     rule = 'C05.D2.slice-bounds'
+    bind_cases(ck, mod, rule + '.call-binding', '_slice_to_list', _READERS, '__getitem__ / __setitem__')
     for q in ('_slice_to_list', '_get_iis_from_slices'):
         fn = mod.func(q)
         ck.analysed(mod, fn)
@@ -2443,6 +2484,7 @@ def d5_where(ck, mod):
         ck.missing(rule, '_convert_from_1d(flat index, lengths, starts): parameters not recognised')
         return
     P0, L, S = ps[:3]
+    bind_cases(ck, mod, rule + '.call-binding', F, ['where'], 'where()')
     # operands whose value the expression shows: not the lists under construction
     scope = _value_scope(fi, fn)
     rets = [r for r in returns_of(fn) if r.value is not None]
@@ -2773,7 +2815,8 @@ def trailing_dims(ck, mod, rule):
         n += 1
         args, trailing = _trailing_shape(v, DATA)
         scalars = False
-        for a, node in _atoms(_path_conditions(mod, s, fn)):
+        conds = _path_conditions(mod, s, fn)
+        for a, node in _atoms(conds) + _named_atoms(fi, conds):
             if not isinstance(a, Cmp) and a[2] is False and isinstance(a[1], ast.Call) and (call_name(a[1]) or '').split('.')[-1] == '_is_iterable' \
                     and a[1].args and isinstance(a[1].args[0], ast.Subscript) and const_value(a[1].args[0].slice, 'x') == 0:
                 scalars = True
@@ -2895,6 +2938,1211 @@ def d7_constructor_and_lists(ck, mod, container=True):
     ck.floor(rule + '.product', n, 1, 'return of (index pairs, new lengths)')
 
 
+# ---------------------------------------------------------------------------
+# Fifth wave: case tables.  A loop-free function is run symbolically under each case of a FINITE abstract
+# domain (one / many entries, no / some negative entries, parameter None / supplied, input empty / non-empty ...);
+# a test is evaluated from its syntactic form (three-valued: unknown tests are followed both ways), the statements
+# executed on a path are recorded as events in located roles, and a judge compares them with what the property
+# needs in that case.  VIOLATION only when every path of the case shows a recognised wrong event; paths the
+# rule cannot read give analysis-incomplete.  Nothing of the analysed code is executed.
+
+INF = float('inf')
+
+
+def _cmp_iv(op, a, b):
+    """Three-valued comparison of two integer intervals (lo, hi)."""
+    if op in (ast.Gt, ast.GtE):
+        op, a, b = (ast.Lt if op is ast.Gt else ast.LtE), b, a
+    if op is ast.Lt:
+        return True if a[1] < b[0] else (False if a[0] >= b[1] else None)
+    if op is ast.LtE:
+        return True if a[1] <= b[0] else (False if a[0] > b[1] else None)
+    if op in (ast.Eq, ast.NotEq):
+        if a[0] == a[1] == b[0] == b[1]:
+            v = True
+        elif a[1] < b[0] or b[1] < a[0]:
+            v = False
+        else:
+            return None
+        return v if op is ast.Eq else not v
+    return None
+
+
+def _determinate(mod, fn, node, ev):
+    """Every if-statement enclosing `node` was decided by the abstract case on this path."""
+    val = {}
+    for e in ev:
+        if e[0] == 'test':
+            val[id(e[3])] = e[2]
+    conds = _path_conditions(mod, node, fn)
+    return bool(conds) and all(val.get(id(n)) is not None for _, _, n in conds)
+
+
+class _DropPredicates(ast.NodeTransformer):
+    def visit_Call(self, n):
+        self.generic_visit(n)
+        if (call_name(n) or '').split('.')[-1] == '_is_iterable' and len(n.args) == 1 and not n.keywords:
+            return n.args[0]
+        return n
+
+
+def _pure_pred(e):
+    """_pure, with the module's own type predicate _is_iterable(x) (two isinstance tests) accepted as pure."""
+    return _pure(_DropPredicates().visit(_copy.deepcopy(e)))
+
+
+def _unconditional(node):
+    """The sub-expressions of a statement / expression that are evaluated whenever it is (not the later operands
+    of and / or, the arms of a conditional expression, the bodies of comprehensions and lambdas)."""
+    todo = [node]
+    while todo:
+        n = todo.pop()
+        yield n
+        if isinstance(n, ast.BoolOp):
+            todo.append(n.values[0])
+        elif isinstance(n, ast.IfExp):
+            todo.append(n.test)
+        elif isinstance(n, (ast.ListComp, ast.SetComp, ast.GeneratorExp, ast.DictComp)):
+            todo.append(n.generators[0].iter)
+        elif isinstance(n, (ast.Lambda, ast.FunctionDef, ast.AsyncFunctionDef, ast.ClassDef)):
+            continue
+        else:
+            todo.extend(ast.iter_child_nodes(n))
+
+
+def _cp_state(st):
+    return {k: (dict(v) if isinstance(v, dict) else (set(v) if isinstance(v, set) else v)) for k, v in st.items()}
+
+
+def _exc_name(r):
+    if r.exc is None:
+        return 'raise'
+    return (dotted(r.exc.func if isinstance(r.exc, ast.Call) else r.exc) or '?').split('.')[-1]
+
+
+def _is_none(e):
+    return isinstance(e, ast.Constant) and e.value is None
+
+
+class _CaseWalk:
+    """Path enumeration of one function under one abstract case.
+    State: {'none': {parameter: is None?}, 'env': {temporary: value on this path}, ...};
+    events: (kind, subject, payload, node); ends: return / raise / fall / opaque."""
+
+    def __init__(self, mod, fn, keep=()):
+        self.mod, self.fn = mod, fn
+        self.fi = finfo(mod, fn)
+        self.params = set(params(fn))
+        self.keep = set(keep) | self.params
+        self.budget = 0
+
+    # --- hooks
+    def ival(self, x, st):
+        k = const_value(x, None)
+        if isinstance(k, int) and not isinstance(k, bool):
+            return (k, k)
+        return None
+
+    def batom(self, x, st, ev, sure):
+        return None
+
+    def effect(self, s, st, ev):
+        pass
+
+    def scan(self, node, st, ev):
+        pass
+
+    # --- machinery
+    def xp(self, e, st, stop=()):
+        env = st.get('env') or {}
+        for _ in range(4):
+            e2 = _subst(e, env)
+            if e2 is e:
+                break
+            e = e2
+        try:
+            return canon(_expand(self.fi, e, stop=tuple(stop) or tuple(getattr(self, 'dims', ())), strict=False))
+        except Exception:
+            return canon(e)
+
+    def none_uses(self, node, st, ev):
+        """A parameter that is None in this case, read otherwise than in an `is None` test or as an argument
+        handed on to a function of the module."""
+        nn = {p for p, v in st['none'].items() if v is True}
+        if not nn:
+            return
+        names = [n for n in ast.walk(node) if isinstance(n, ast.Name) and isinstance(n.ctx, ast.Load) and n.id in nn]
+        if not names:
+            return
+        if any(isinstance(x, (ast.IfExp, ast.BoolOp)) for x in ast.walk(node)):
+            return
+        skip = set()
+        for c in ast.walk(node):
+            if isinstance(c, ast.Compare) and len(c.ops) == 1 and isinstance(c.ops[0], (ast.Is, ast.IsNot, ast.Eq, ast.NotEq)):
+                for side in (c.left, c.comparators[0]):
+                    if isinstance(side, ast.Name):
+                        skip.add(id(side))
+            if isinstance(c, ast.Call):
+                direct = list(c.args) + [k.value for k in c.keywords]
+                known_np = (call_name(c) or '').startswith(('np.', 'numpy.'))
+                for a in direct:
+                    if isinstance(a, ast.Name) and not known_np:
+                        skip.add(id(a))
+        for n in names:
+            if id(n) not in skip:
+                ev.append(('none-use', n.id, None, node))
+                return
+
+    def truth(self, t, st, ev, sure=True):
+        if isinstance(t, ast.UnaryOp) and isinstance(t.op, ast.Not):
+            v = self.truth(t.operand, st, ev, sure)
+            return None if v is None else (not v)
+        if isinstance(t, ast.BoolOp):
+            is_and = isinstance(t.op, ast.And)
+            vs = []
+            for x in t.values:
+                v = self.truth(x, st, ev, sure)
+                vs.append(v)
+                if v is (False if is_and else True):
+                    break                   # short circuit: the remaining operands are not evaluated
+                if v is None:
+                    sure = False
+            if is_and:
+                return False if False in vs else (None if None in vs else True)
+            return True if True in vs else (None if None in vs else False)
+        x = self.xp(t, st)
+        while isinstance(x, ast.Call) and call_name(x) == 'bool' and len(x.args) == 1 and not x.keywords:
+            x = x.args[0]
+        if isinstance(x, ast.BoolOp) or (isinstance(x, ast.UnaryOp) and isinstance(x.op, ast.Not)):
+            if u(x) != u(canon(t)):
+                return self.truth(x, st, ev, sure)
+            return None
+        if sure:
+            self.scan(x, st, ev)
+            self.none_uses(x, st, ev)
+        v = self.batom(x, st, ev, sure)
+        if v is not None:
+            return v
+        if isinstance(x, ast.Compare) and len(x.ops) == 1:
+            a, b, op = x.left, x.comparators[0], type(x.ops[0])
+            if op in (ast.Is, ast.IsNot):
+                for p_, q_ in ((a, b), (b, a)):
+                    if _is_none(q_) and isinstance(p_, ast.Name) and st['none'].get(p_.id) is not None:
+                        k = st['none'][p_.id]
+                        return k if op is ast.Is else not k
+                return None
+            ia, ib = self.ival(a, st), self.ival(b, st)
+            if ia is not None and ib is not None:
+                return _cmp_iv(op, ia, ib)
+            return None
+        iv = self.ival(x, st)
+        if iv is not None:
+            if iv == (0, 0):
+                return False
+            if iv[0] > 0:
+                return True
+        return None
+
+    def bookkeeping(self, s, st):
+        """None-ness of rebound parameters and the values of pure temporaries along the path."""
+        env, none = st['env'], st['none']
+        tg = []
+        if isinstance(s, ast.Assign):
+            tg = s.targets
+        elif isinstance(s, (ast.AugAssign, ast.AnnAssign)):
+            tg = [s.target]
+        for t in tg:
+            for nm in target_names(t):
+                env.pop(nm, None)
+                if nm in none:
+                    none[nm] = None
+        if isinstance(s, ast.Assign) and len(s.targets) == 1 and isinstance(s.targets[0], ast.Name):
+            nm = s.targets[0].id
+            if nm in none:
+                none[nm] = True if _is_none(s.value) else False
+            if nm not in self.keep and _pure_pred(s.value) and nm not in names_loaded(s.value):
+                env[nm] = s.value
+
+    def paths(self, st, budget=3000):
+        self.budget = budget
+        return self._walk(list(self.fn.body), st, [])
+
+    def _walk(self, stmts, st, ev):
+        for i, s in enumerate(stmts):
+            self.budget -= 1
+            if self.budget < 0:
+                return [(ev, 'opaque', s)]
+            rest = stmts[i + 1:]
+            if isinstance(s, ast.If):
+                t = self.truth(s.test, st, ev)
+                ev = ev + [('test', None, t, s)]
+                out = []
+                if t is not False:
+                    out += self._walk(list(s.body) + rest, _cp_state(st), list(ev))
+                if t is not True:
+                    out += self._walk(list(s.orelse) + rest, _cp_state(st), list(ev))
+                return out
+            if isinstance(s, ast.Try):
+                out = self._walk(list(s.body) + list(s.orelse) + list(s.finalbody) + rest, _cp_state(st), list(ev))
+                for h in s.handlers:
+                    out += self._walk(list(h.body) + list(s.finalbody) + rest, _cp_state(st), list(ev) + [('handler', None, None, h)])
+                return out
+            if isinstance(s, ast.With):
+                return self._walk(list(s.body) + rest, st, ev)
+            if isinstance(s, (ast.For, ast.While, ast.AsyncFor, ast.AsyncWith)) or type(s).__name__ in ('Match', 'TryStar'):
+                return [(ev, 'opaque', s)]
+            if isinstance(s, ast.Raise):
+                return [(ev, 'raise', s)]
+            if isinstance(s, (ast.FunctionDef, ast.AsyncFunctionDef, ast.ClassDef, ast.Pass, ast.Import, ast.ImportFrom, ast.Global, ast.Nonlocal)):
+                continue
+            if isinstance(s, ast.Expr) and isinstance(s.value, ast.Constant):
+                continue
+            self.scan(s, st, ev)
+            self.none_uses(s, st, ev)
+            self.effect(s, st, ev)
+            self.bookkeeping(s, st)
+            if isinstance(s, ast.Return):
+                return [(ev, 'return', s)]
+        return [(ev, 'fall', None)]
+
+
+def _run_cases(ck, rule, mod, F, walker, cases, judge, ok_text, ok_node=None):
+    """judge(case, state0, events, end, node) -> 'neutral' or a list of findings
+    ('bad', node, construct, detail) / ('unknown', text).  A case is violated when every non-neutral path
+    has a 'bad' finding; a case with an unread path (and no such verdict) is undecided."""
+    bads, unknowns = {}, []
+    for label, st0 in cases:
+        st = _cp_state(st0)
+        st.setdefault('env', {})
+        st.setdefault('none', {})
+        try:
+            outs = walker.paths(st)
+        except RecursionError:
+            outs = [([], 'opaque', None)]
+        res = []
+        for ev, end, node in outs:
+            r = judge(label, st0, ev, end, node)
+            if r == 'neutral':
+                continue
+            res.append(r)
+        if not res:
+            continue
+        with_bad = [r for r in res if any(f[0] == 'bad' for f in r)]
+        if len(with_bad) == len(res):
+            seen_here = set()
+            for r in with_bad:
+                f = [f for f in r if f[0] == 'bad'][0]
+                key = (id(f[1]), f[2])
+                if key in seen_here:
+                    continue
+                seen_here.add(key)
+                bads.setdefault(key, (f, label))
+        elif with_bad:
+            f = [f for f in with_bad[0] if f[0] == 'bad'][0]
+            unknowns.append('%s, case %s: %s holds on some paths only (a test on the way is not evaluated by the rule)' % (F, label, f[2][:100]))
+        else:
+            for r in res:
+                for f in r:
+                    if f[0] == 'unknown':
+                        unknowns.append('%s, case %s: %s' % (F, label, f[1]))
+    for (f, label) in bads.values():
+        ck.bad(rule, mod, f[1], F, f[2], '%s [case: %s]' % (f[3], label))
+    seen = set()
+    for t in unknowns:
+        if t not in seen and len(seen) < 3:
+            seen.add(t)
+            ck.missing(rule, t[:300])
+    if not bads and not unknowns:
+        ck.ok(rule, mod, ok_node if ok_node is not None else walker.fn, '%s: %d cases' % (F, len(cases)), ok_text)
+    return bool(bads), bool(unknowns)
+
+
+def _call_binding(mod, callee, callers, outer=None):
+    """{parameter of callee: True (None at every call site) / False (an argument at every call site)} for the
+    parameters whose default is None, over the calls in the functions `callers`.  An argument that is a parameter of
+    the caller takes that parameter's state from `outer`."""
+    f = mod.functions.get(callee)
+    if f is None:
+        return {}
+    out, n = {}, 0
+    for q in callers:
+        cf = mod.functions.get(q)
+        if cf is None:
+            continue
+        for c in calls_in(cf):
+            if call_name(c) != callee:
+                continue
+            b = _bind_call(mod, c)
+            if b is None:
+                return {}
+            n += 1
+            for p_ in params(f):
+                d = param_default(f, p_)
+                if d is None or not _is_none(d):
+                    continue
+                if p_ not in b or _is_none(b[p_]):
+                    v = True
+                elif isinstance(b[p_], ast.Name) and outer is not None and b[p_].id in outer:
+                    v = outer[b[p_].id]
+                else:
+                    v = False
+                if p_ in out and out[p_] != v:
+                    v = None
+                out[p_] = v
+    return {k: v for k, v in out.items() if v is not None} if n else {}
+
+
+_READERS = (CLS + '.__getitem__', CLS + '.__setitem__')
+_MUTATING_ARRAY_METHODS = {'fill', 'sort', 'put', 'itemset', 'resize', 'partition', 'setfield', 'setflags', 'byteswap'}
+_SIZE_PATS = ('len(_X)', '_X.size', '_X.shape[0]', 'np.size(_X)')
+_NDIM_PATS = ('np.ndim(_X)', '_X.ndim', 'len(_X.shape)', 'len(np.shape(_X))')
+_COUNT_NEG_PATS = ('len(np.where(_X < 0)[0])', 'np.where(_X < 0)[0].size', 'np.where(_X < 0)[0].shape[0]', '(_X < 0).sum()',
+                   'np.count_nonzero(_X < 0)', '(_X < 0).nonzero()[0].size', 'len((_X < 0).nonzero()[0])',
+                   'np.nonzero(_X < 0)[0].size', 'len(np.nonzero(_X < 0)[0])', 'len(_X[_X < 0])', '_X[_X < 0].size')
+_NEG_SET_FORMS = ('np.where(%s < 0)[0]', 'np.where(%s < 0)', '%s < 0', '(%s < 0).nonzero()[0]', '(%s < 0).nonzero()',
+                  'np.nonzero(%s < 0)[0]', 'np.nonzero(%s < 0)')
+_TO_1D = ('%s.reshape(-1)', '%s.reshape((-1,))', 'np.atleast_1d(%s)', '%s.ravel()', '%s.flatten()', 'np.reshape(%s, -1)',
+          '%s.reshape(%s.size)', '%s.reshape((%s.size,))')
+
+
+def _dim_of(pats, x, dims):
+    """The name bound to _X when x matches one of the patterns and the name is in `dims` (a collection, or a
+    function name -> key or None)."""
+    for pat in pats:
+        b = match(pat, x)
+        if b is not None and isinstance(b['_X'], ast.Name):
+            if callable(dims):
+                k = dims(b['_X'].id)
+                if k is not None:
+                    return b['_X'].id
+            elif b['_X'].id in dims:
+                return b['_X'].id
+    return None
+
+
+def _is_coercion(v, name):
+    """np.array(X) / np.asarray(X) / X.copy() / X.astype(int) / np.array(X, dtype=int): the same entries."""
+    inner = _strip_array(v)
+    if inner is None and isinstance(v, ast.Call) and isinstance(v.func, ast.Attribute) and v.func.attr == 'astype' and \
+            len(v.args) == 1 and u(v.args[0]) in _INT_DTYPES:
+        inner = v.func.value
+    if inner is None and isinstance(v, ast.Call) and call_name(v) in ('np.asanyarray', 'np.ascontiguousarray') and len(v.args) == 1:
+        inner = v.args[0]
+    return isinstance(inner, ast.Name) and inner.id == name
+
+
+class _NegWalk(_CaseWalk):
+    """_handle_negative_indices(rows, columns, lengths, starts)."""
+
+    def __init__(self, mod, fn):
+        ps = params(fn)
+        self.R, self.Cn, self.L, self.S = ps[:4]
+        self.dims = (self.R, self.Cn)
+        _CaseWalk.__init__(self, mod, fn, keep=self.dims)
+        self.scope = _value_scope(self.fi, fn)
+
+    def root(self, nm, st):
+        """The index array (rows / columns) whose entries the name holds: the parameter itself or a local alias."""
+        if nm in self.dims:
+            return nm
+        return st['alias'].get(nm)
+
+    def ival(self, x, st):
+        k = _CaseWalk.ival(self, x, st)
+        if k is not None:
+            return k
+        rt = lambda nm: self.root(nm, st)
+        d = _dim_of(_SIZE_PATS, x, rt)
+        if d is not None:
+            return (1, 1) if st['size'][rt(d)] == 'one' else (2, INF)
+        d = _dim_of(_COUNT_NEG_PATS, x, rt)
+        if d is not None:
+            n = st['neg'][rt(d)]
+            if n == 'none':
+                return (0, 0)
+            if n == 'some':
+                return (1, 1) if st['size'][rt(d)] == 'one' else (1, INF)
+            return (0, INF)
+        d = _dim_of(_NDIM_PATS, x, rt)
+        if d is not None:
+            return (0, 0) if st['nd0'].get(d) else (1, INF)
+        return None
+
+    def batom(self, x, st, ev, sure):
+        rt = lambda nm: self.root(nm, st)
+        for pat, pos in (('(_X < 0).any()', True), ('_X.min() < 0', True), ('(0 <= _X).all()', False), ('0 <= _X.min()', False)):
+            d = _dim_of((pat,), x, rt)
+            if d is not None:
+                n = st['neg'][rt(d)]
+                if n == 'unknown':
+                    return None
+                return (n == 'some') is pos
+        return None
+
+    def scan(self, node, st, ev):
+        # numpy refuses nonzero() / where() of a 0-d array ("Calling nonzero on 0d arrays is not allowed")
+        for c in _unconditional(node):
+            if not isinstance(c, ast.Call):
+                continue
+            arg = None
+            if call_name(c) in ('np.where', 'np.nonzero', 'np.flatnonzero', 'np.argwhere') and len(c.args) == 1 and not c.keywords:
+                arg = c.args[0]
+            elif isinstance(c.func, ast.Attribute) and c.func.attr == 'nonzero' and not c.args:
+                arg = c.func.value
+            if arg is None:
+                continue
+            for d, z in st['nd0'].items():
+                if z and d in names_loaded(arg) and self.root(d, st) is not None:
+                    ev.append(('err0d', self.root(d, st), None, c))
+
+    def _update(self, s, t, op, add, st, ev, elementwise=False):
+        b = t.value if isinstance(t, ast.Subscript) else t
+        X = b.id
+        info = {'whole': not isinstance(t, ast.Subscript), 'op': op, 'idx': None, 'idx_text': None, 'elementwise': elementwise}
+        if isinstance(t, ast.Subscript):
+            I = self.xp(t.slice, st)
+            info['idx_text'] = u(I)
+            v = _classify(I, [f.replace('%s', X) for f in _NEG_SET_FORMS], {X})
+            info['idx'] = {'match': 'neg', 'near': 'wrong', 'far': 'unknown'}[v[0]]
+        off = self.xp(add, st)
+        info['off_text'] = u(off)
+        L, S, R = self.L, self.S, self.R
+        if X == self.R:
+            v = _classify(off, ['len(%s)' % S, '%s.shape[0]' % S, '%s.size' % S, 'len(%s)' % L, '%s.shape[0]' % L, '%s.size' % L], self.scope)
+            info['off'] = {'match': 'nrows', 'near': 'wrong', 'far': 'unknown'}[v[0]]
+        else:
+            v = _classify(off, ['%s[%s[_I]]' % (L, R), '%s[%s][_I]' % (L, R)], self.scope)
+            if v[0] == 'match':
+                info['off'] = 'same-pos' if info['idx_text'] is not None and u(canon(v[1]['_I'])) == info['idx_text'] else 'wrong'
+            else:
+                v2 = _classify(off, ['%s[%s]' % (L, R)], self.scope)
+                info['off'] = {'match': 'all-rows', 'near': 'wrong', 'far': 'unknown'}[v2[0]]
+        ev.append(('upd', X, info, s))
+        st['neg'][X] = 'unknown'
+
+    def effect(self, s, st, ev):
+        dims = self.dims
+        alias = st['alias']
+        # calls that may write an index array behind the rule's back: helpers of the module, numpy's in-place
+        # functions (out=..., ufunc.at, np.put ...), mutating methods of the array itself
+        for c in ast.walk(s):
+            if not isinstance(c, ast.Call):
+                continue
+            cn = call_name(c) or ''
+            direct = [a.id for a in list(c.args) + [k.value for k in c.keywords] if isinstance(a, ast.Name)]
+            recv = c.func.value.id if isinstance(c.func, ast.Attribute) and isinstance(c.func.value, ast.Name) else None
+            hit = [a for a in direct if self.root(a, st) is not None]
+            if hit and (cn in self.mod.functions or cn in IMPURE_NP or cn.endswith('.at') or any(k.arg == 'out' for k in c.keywords)) \
+                    and not (isinstance(s, ast.Return)):
+                ev.append(('opaque', self.root(hit[0], st), None, s))
+            elif recv is not None and self.root(recv, st) is not None and c.func.attr in _MUTATING_ARRAY_METHODS:
+                ev.append(('opaque', self.root(recv, st), None, s))
+        if isinstance(s, ast.AugAssign):
+            b = s.target.value if isinstance(s.target, ast.Subscript) else s.target
+            if isinstance(b, ast.Name) and b.id in dims:
+                self._update(s, s.target, type(s.op), s.value, st, ev)
+            elif isinstance(b, ast.Name) and b.id in alias:
+                ev.append(('opaque', alias[b.id], None, s))
+            return
+        if isinstance(s, ast.Assign) and len(s.targets) == 1 and isinstance(s.targets[0], ast.Name):
+            # local aliases of an index array:  t = X ; t = <coercion / reshape(-1) of t> ; X = t
+            t, v = s.targets[0].id, s.value
+            if isinstance(v, ast.Name) and self.root(v.id, st) is not None:
+                X = self.root(v.id, st)
+                if t == X:
+                    st['nd0'][X] = st['nd0'].get(v.id, False)
+                    return
+                if t not in dims:
+                    alias[t] = X
+                    st['nd0'][t] = st['nd0'].get(v.id, False)
+                    return
+            elif t in alias:
+                vv = canon(v)
+                if _is_coercion(vv, t):
+                    return
+                if any(match(f.replace('%s', t), vv) is not None for f in _TO_1D):
+                    st['nd0'][t] = False
+                    return
+                del alias[t]
+                st['nd0'].pop(t, None)
+        if isinstance(s, ast.Assign):
+            for t in s.targets:
+                b = t
+                while isinstance(b, ast.Subscript):
+                    b = b.value
+                if isinstance(t, (ast.Tuple, ast.List)):
+                    for nm in target_names(t):
+                        if nm in dims:
+                            ev.append(('opaque', nm, None, s))
+                    continue
+                if isinstance(b, ast.Name) and b.id in alias and isinstance(t, ast.Subscript):
+                    ev.append(('opaque', alias[b.id], None, s))
+                    continue
+                if not (isinstance(b, ast.Name) and b.id in dims):
+                    continue
+                X = b.id
+                v = canon(s.value)
+                if isinstance(t, ast.Name):
+                    if _is_coercion(v, X):
+                        continue
+                    if any(match(f.replace('%s', X), v) is not None for f in _TO_1D):
+                        st['nd0'][X] = False
+                        continue
+                bw = None
+                if isinstance(t, ast.Name):
+                    for pat in ('np.where(%s < 0, %s + _O, %s)', 'np.where(%s < 0, _O + %s, %s)'):
+                        bw = bw or match(pat.replace('%s', X), v)
+                if bw is not None:
+                    # X = np.where(X < 0, X + off, X): the entries with X < 0, and only those, are offset (elementwise)
+                    self._update(s, ast.Subscript(value=ast.Name(id=X, ctx=ast.Load()), slice=_parse('%s < 0' % X), ctx=ast.Store()),
+                                 ast.Add, bw['_O'], st, ev, elementwise=True)
+                elif isinstance(v, ast.BinOp) and isinstance(v.op, (ast.Add, ast.Sub)) and u(v.left) == u(canon(t)):
+                    self._update(s, t, type(v.op), s.value.right, st, ev)
+                elif isinstance(v, ast.BinOp) and isinstance(v.op, ast.Add) and u(v.right) == u(canon(t)):
+                    self._update(s, t, ast.Add, s.value.left, st, ev)
+                else:
+                    ev.append(('opaque', X, None, s))
+            return
+
+
+def neg_cases(ck, mod):
+    """_handle_negative_indices over the cases (one / many rows, one / many columns, 0-d or 1-d single entries,
+    no / some negative rows, no / some negative columns), lengths and starts supplied as on the read path."""
+    rule = 'C05.D1.row-bounds.negative-cases'
+    F = '_handle_negative_indices'
+    fn = mod.functions.get(F)
+    if fn is None or len(params(fn)) < 4:
+        return
+    W = _NegWalk(mod, fn)
+    R, Cn, L, S = W.R, W.Cn, W.L, W.S
+    bind = _call_binding(mod, F, ['_convert_from_2d'], outer=_call_binding(mod, '_convert_from_2d', _READERS))
+    none0 = {L: bind.get(L, False), S: bind.get(S, False)}
+    cases = []
+    for sr, sc in (('one', 'one'), ('one', 'many'), ('many', 'many')):
+        for zr in ((True, False) if sr == 'one' else (False,)):
+            for zc in ((True, False) if sc == 'one' else (False,)):
+                for nr in ('none', 'some'):
+                    for nc in ('none', 'some'):
+                        label = '%s row index%s, %s column index%s; negative rows: %s, negative columns: %s' % (
+                            sr, ' (0-d)' if zr else '', sc, ' (0-d)' if zc else '', nr, nc)
+                        cases.append((label, {'size': {R: sr, Cn: sc}, 'nd0': {R: zr, Cn: zc}, 'neg': {R: nr, Cn: nc}, 'none': dict(none0),
+                                              'alias': {}}))
+    what = {R: 'row', Cn: 'column'}
+
+    def judge(label, st0, ev, end, node):
+        out = []
+        if end == 'opaque':
+            return [('unknown', 'statement not followed: %s' % u(node)[:80])]
+        if end == 'raise':
+            en = _exc_name(node)
+            if en == 'IndexError':
+                bad0 = [e for e in ev if e[0] == 'err0d']
+                if not bad0 and _determinate(mod, fn, node, ev):
+                    cond = [t for t, _, _ in _path_conditions(mod, node, fn)]
+                    return [('bad', node, 'raise IndexError%s' % ((' under `%s`' % u(cond[-1])[:80]) if cond else ''),
+                             'every index of this case is refused - also the valid ones (a[-1, ...], a[..., -1]): the tests on the way to the '
+                             'raise are decided by the case alone, i.e. the negative entries were not offset before the re-test')]
+                if not bad0:
+                    return 'neutral'
+            else:
+                cond = [t for t, _, _ in _path_conditions(mod, node, fn)]
+                out.append(('bad', node, 'raise %s%s' % (en, (' under `%s`' % u(cond[-1])[:80]) if cond else ''),
+                            'the refusal is reached although lengths and starts are supplied, as on every read: the index is valid '
+                            'for the list of rows but the read raises %s' % en))
+                return out
+        for e in ev:
+            if e[0] == 'err0d':
+                out.append(('bad', e[3], '%s with the %s index still 0-d' % (u(e[3])[:80], what[e[1]]),
+                            'a scalar index arrives as a 0-d array; it must be brought to one dimension (reshape(-1)) before '
+                            'np.where / nonzero is applied to it: numpy refuses nonzero() of a 0-d array, so a[i, j] raises ValueError'))
+                return out
+        if end == 'return' and isinstance(node.value, ast.Tuple) and len(node.value.elts) == 2 and \
+                all(isinstance(x, ast.Name) for x in node.value.elts):
+            got = [x.id for x in node.value.elts]
+            if got == [Cn, R]:
+                out.append(('bad', node, u(node), 'the normalised (rows, columns) must be returned in this order'))
+                return out
+        for X in (R, Cn):
+            if any(e[0] == 'opaque' and e[1] == X for e in ev):
+                o = [e for e in ev if e[0] == 'opaque' and e[1] == X][0]
+                out.append(('unknown', 'update of the %s indices not read: %s' % (what[X], u(o[3])[:100])))
+                continue
+            ups = [e for e in ev if e[0] == 'upd' and e[1] == X]
+            neg = st0['neg'][X]
+            size = st0['size'][X]
+            eff = [e for e in ups if not (e[2]['idx'] == 'neg' and neg == 'none')]
+            if neg == 'none':
+                if eff:
+                    e = eff[0]
+                    if e[2]['idx'] == 'unknown':
+                        out.append(('unknown', 'index set of %s not recognised' % u(e[3])[:100]))
+                    else:
+                        out.append(('bad', e[3], u(e[3])[:160], 'executed for %s indices without a negative entry: a valid non-negative index is '
+                                    'shifted by the %s' % (what[X], 'number of rows' if X == R else 'row length')))
+                continue
+            if not eff:
+                out.append(('bad', fn, 'offset of the negative %s indices' % what[X],
+                            'no offset is applied on the path taken when some %s index is negative: the index stays negative (IndexError for a '
+                            'valid a[..-1..], or - without the re-test - a read from the previous row)' % what[X]))
+                continue
+            if len(eff) > 1:
+                out.append(('bad', eff[1][3], u(eff[1][3])[:160], 'the negative %s indices are offset twice on one path' % what[X]))
+                continue
+            e = eff[0]
+            info = e[2]
+            if info['op'] is not ast.Add:
+                out.append(('bad', e[3], u(e[3])[:160], 'the %s must be ADDED to a negative %s index (x[neg] += n)'
+                            % ('number of rows' if X == R else 'length of the row', what[X])))
+                continue
+            if info['whole'] and size == 'many':
+                out.append(('bad', e[3], u(e[3])[:160], 'the whole %s index array is shifted although it has several entries of which only some '
+                            'are negative: the non-negative entries are shifted too' % what[X]))
+                continue
+            if info['idx'] == 'wrong':
+                out.append(('bad', e[3], u(e[3])[:160], 'the offset must be applied to the entries with %s < 0 (found the index set %s)'
+                            % (X, info['idx_text'][:80])))
+                continue
+            if info['idx'] == 'unknown':
+                out.append(('unknown', 'index set of %s not recognised' % u(e[3])[:100]))
+                continue
+            k = info['off']
+            if k == 'unknown':
+                out.append(('unknown', 'offset of %s not recognised (%s)' % (u(e[3])[:80], info['off_text'][:60])))
+                continue
+            if X == R:
+                good = k == 'nrows'
+            else:
+                sr, sc = st0['size'][R], st0['size'][Cn]
+                if info['elementwise']:
+                    good = k == 'all-rows' and (sr == sc or sr == 'one')
+                else:
+                    good = (k == 'same-pos' and sr == sc and not info['whole']) or (k == 'all-rows' and (sr == 'one' or (info['whole'] and sr == sc)))
+            if not good:
+                out.append(('bad', e[3], u(e[3])[:160],
+                            ('negative rows must be offset by the number of rows' if X == R else
+                             'a negative column must be offset by the length of ITS row: lengths[rows[neg]] for paired index arrays, '
+                             'lengths[rows] only when there is a single row (found %s for %s row index / %s column index)'
+                             % (info['off_text'][:60], st0['size'][R], st0['size'][Cn]))))
+        return out
+
+    _run_cases(ck, rule, mod, F, W, cases, judge,
+               'in every case the negative entries - and only those - are offset once by the number of rows / the length of their row')
+
+
+_SPREAD_FORMS = ('np.array([%(C)s for __ in %(R)s])', 'np.array([%(C)s] * len(%(R)s))', 'np.array([%(C)s] * %(R)s.size)',
+                 'np.array(len(%(R)s) * [%(C)s])', 'np.repeat(%(C)s, len(%(R)s))', 'np.repeat(%(C)s, %(R)s.size)',
+                 'np.full(%(R)s.shape, %(C)s)', 'np.full(len(%(R)s), %(C)s)', 'np.full(%(R)s.size, %(C)s)', 'np.tile(%(C)s, %(R)s.size)',
+                 'np.tile(%(C)s, len(%(R)s))', 'np.full_like(%(R)s, %(C)s)', 'np.array([%(C)s for __ in range(len(%(R)s))])',
+                 'np.array([%(C)s for __ in range(%(R)s.size)])', 'np.array([int(%(C)s)] * len(%(R)s))',
+                 'np.array([%(C)s.item() for __ in %(R)s])', 'np.array([int(%(C)s) for __ in %(R)s])')
+
+
+class _ConvWalk(_CaseWalk):
+    """_convert_from_2d: sizes of the row / column index arrays handed to _handle_negative_indices."""
+
+    def __init__(self, mod, fn, R, Cn):
+        self.dims = (R, Cn)
+        self.R, self.Cn = R, Cn
+        _CaseWalk.__init__(self, mod, fn, keep=self.dims)
+        self.spreads = 0
+
+    def ival(self, x, st):
+        k = _CaseWalk.ival(self, x, st)
+        if k is not None:
+            return k
+        d = _dim_of(_SIZE_PATS, x, self.dims)
+        if d is not None:
+            return (1, 1) if st['size'][d] == 'one' else (2, INF)
+        return None
+
+    def effect(self, s, st, ev):
+        if not isinstance(s, ast.Assign):
+            return
+        R, Cn = self.R, self.Cn
+        for t in s.targets:
+            if isinstance(t, (ast.Tuple, ast.List)):
+                nms = target_names(t)
+                if not (set(nms) & set(self.dims)):
+                    continue
+                if isinstance(s.value, ast.Call) and call_name(s.value) == '_handle_negative_indices':
+                    ev.append(('norm', None, dict(st['size']), s))
+                elif isinstance(s.value, ast.Name) or (isinstance(s.value, (ast.Tuple, ast.List)) and not (names_loaded(s.value) & set(self.dims))):
+                    pass            # unpacking of the index pair
+                else:
+                    ev.append(('opaque', None, None, s))
+                continue
+            if not (isinstance(t, ast.Name) and t.id in self.dims):
+                b = t
+                while isinstance(b, ast.Subscript):
+                    b = b.value
+                if isinstance(b, ast.Name) and b.id in self.dims:
+                    ev.append(('opaque', b.id, None, s))
+                continue
+            X, other = t.id, (Cn if t.id == R else R)
+            v = self.xp(s.value, st)
+            if other not in names_loaded(v):
+                continue            # definition / coercion of this index array alone
+            if X == Cn and any(match(f % {'C': Cn, 'R': R}, v) is not None for f in _SPREAD_FORMS):
+                ev.append(('spread', Cn, None, s))
+                self.spreads += 1
+                st['size'][Cn] = st['size'][R]
+                continue
+            ev.append(('opaque', X, None, s))
+
+
+def conv2d_cases(ck, mod):
+    """_convert_from_2d under the read-path binding (lengths and starts supplied): no refusal other than
+    IndexError is reached; a single column for several rows - and only that - is spread to one column per row
+    before the in-place normalisation; the rows / columns are handed to the normalisation in this order."""
+    F = '_convert_from_2d'
+    fn = mod.functions.get(F)
+    if fn is None:
+        return
+    fi = finfo(mod, fn)
+    ps = params(fn)
+    H = '_handle_negative_indices'
+    hf = mod.functions.get(H)
+    calls = [c for c in calls_in(fn) if call_name(c) == H]
+    if hf is None or len(calls) != 1 or len(ps) < 3:
+        return          # d1_bounds reports the missing normalisation (negatives-first)
+    hps = params(hf)
+    b = _bind_call(mod, calls[0])
+    if b is None or len(hps) < 4 or hps[0] not in b or hps[1] not in b:
+        ck.missing('C05.D1.row-bounds.negatives-first.operands', 'arguments of %s not recognised' % u(calls[0])[:100])
+        return
+    # --- operand order
+    rule = 'C05.D1.row-bounds.negatives-first.operands'
+    P0 = ps[0]
+
+    def roles(e):
+        out = set()
+
+        def rec(e, d):
+            if d <= 0 or e is None:
+                out.add('?')
+                return
+            for _ in range(4):
+                inner = _strip_array(e)
+                if inner is None and isinstance(e, ast.Call) and isinstance(e.func, ast.Attribute) and \
+                        e.func.attr in ('astype', 'reshape', 'ravel', 'flatten', 'copy', 'squeeze') and not (call_name(e) or '').startswith(('np.', 'numpy.')):
+                    inner = e.func.value
+                if inner is None and isinstance(e, ast.Call) and call_name(e) in ('np.array', 'np.asarray', 'np.atleast_1d', 'np.asanyarray', 'np.ravel') and e.args:
+                    inner = e.args[0]
+                if inner is None:
+                    break
+                e = inner
+            if isinstance(e, ast.ListComp) and len(e.generators) == 1:
+                return rec(e.elt, d)
+            if isinstance(e, ast.Call) and call_name(e) in ('np.repeat', 'np.tile') and e.args:
+                return rec(e.args[0], d)
+            if isinstance(e, ast.Call) and call_name(e) == 'np.full' and len(e.args) >= 2:
+                return rec(e.args[1], d)
+            if isinstance(e, ast.BinOp) and isinstance(e.op, ast.Mult):
+                for side in (e.left, e.right):
+                    if isinstance(side, ast.List) and len(side.elts) == 1:
+                        return rec(side.elts[0], d)
+            if isinstance(e, (ast.List, ast.Tuple)) and len(e.elts) == 1:
+                return rec(e.elts[0], d)
+            if isinstance(e, ast.Subscript) and isinstance(e.value, ast.Name) and e.value.id == P0:
+                k = const_value(e.slice, None)
+                try:
+                    isparam = fi.defs_of_use(e.value) == {'PARAM'}
+                except Exception:
+                    isparam = False
+                out.add(k if isparam and k in (0, 1) and not isinstance(k, bool) else '?')
+                return
+            if isinstance(e, ast.Name):
+                try:
+                    defs = fi.defs_of_use(e)
+                except Exception:
+                    out.add('?')
+                    return
+                for site in defs:
+                    if isinstance(site, ast.Assign) and len(site.targets) == 1 and isinstance(site.targets[0], (ast.Tuple, ast.List)) and \
+                            isinstance(site.value, ast.Name) and site.value.id == P0 and all(isinstance(x, ast.Name) for x in site.targets[0].elts):
+                        pos = [i for i, x in enumerate(site.targets[0].elts) if x.id == e.id]
+                        out.add(pos[0] if len(pos) == 1 and len(site.targets[0].elts) == 2 else '?')
+                    elif isinstance(site, (ast.Assign, ast.AnnAssign)):
+                        v = fi.def_value(site, e.id)
+                        if v is None:
+                            out.add('?')
+                        else:
+                            rec(v, d - 1)
+                    else:
+                        out.add('?')
+                return
+            out.add('?')
+        rec(e, 8)
+        return out
+
+    r0, r1 = roles(b[hps[0]]), roles(b[hps[1]])
+    con = '%s(%s, %s, ...)' % (H, u(b[hps[0]])[:40], u(b[hps[1]])[:40])
+    kw_swapped = (hps[2] in b and hps[3] in b and isinstance(b[hps[2]], ast.Name) and isinstance(b[hps[3]], ast.Name) and
+                  b[hps[2]].id == ps[2] and b[hps[3]].id == ps[1] and
+                  fi.defs_of_use(b[hps[3]]) == {'PARAM'})
+    if (r0, r1) == ({1}, {0}) or kw_swapped:
+        ck.bad(rule, mod, calls[0], F, con,
+               'the row indices must be handed to %s as its first and the column indices as its second argument (and lengths / starts under '
+               'their own names): swapped, rows are offset by row lengths and columns by the number of rows, and the flat index is '
+               'starts[column] + row' % H)
+    elif (r0, r1) == ({0}, {1}):
+        ck.ok(rule, mod, calls[0], con, 'rows and columns of the index pair are handed to the normalisation in this order')
+    else:
+        ck.missing(rule, 'origin of the arguments of %s in %s not traced to the two components of the index pair' % (u(calls[0])[:80], F))
+    # --- case table
+    a0, a1 = b[hps[0]], b[hps[1]]
+    if not (isinstance(a0, ast.Name) and isinstance(a1, ast.Name)) or a0.id == a1.id:
+        ck.missing('C05.D1.row-bounds.spread', 'the arguments of %s are not two local names: sizes not followed' % u(calls[0])[:80])
+        return
+    R, Cn = (a0.id, a1.id) if (r0, r1) != ({1}, {0}) else (a1.id, a0.id)
+    W = _ConvWalk(mod, fn, R, Cn)
+    bind = _call_binding(mod, F, _READERS)
+    none0 = {p_: v for p_, v in bind.items()}
+    cases = []
+    for sr in ('one', 'many'):
+        for sc in ('one', 'many'):
+            cases.append(('%s row index, %s column index' % (sr, sc), {'size': {R: sr, Cn: sc}, 'none': dict(none0)}))
+
+    def judge(label, st0, ev, end, node):
+        if end == 'opaque':
+            return [('unknown', 'statement not followed: %s' % u(node)[:80])]
+        if end == 'raise':
+            en = _exc_name(node)
+            if en == 'IndexError':
+                return 'neutral'
+            cond = [t for t, _, _ in _path_conditions(mod, node, fn)]
+            return [('bad', node, 'raise %s%s' % (en, (' under `%s`' % u(cond[-1])[:80]) if cond else ''),
+                     'the refusal is reached although lengths and starts are supplied, as on every read through __getitem__: every '
+                     'a[rows, columns] raises %s' % en)]
+        for e in ev:
+            if e[0] == 'none-use':
+                return [('bad', e[3], u(e[3])[:160], '`%s` is None on the read path and is used as a value here' % e[1])]
+        if any(e[0] == 'opaque' for e in ev):
+            o = [e for e in ev if e[0] == 'opaque'][0]
+            return [('unknown', 'rebinding of the index arrays not read: %s' % u(o[3])[:100])]
+        sp = [e for e in ev if e[0] == 'spread']
+        nrm = [e for e in ev if e[0] == 'norm']
+        if not nrm:
+            return [('unknown', 'no call of %s on this path' % H)]
+        want = 1 if (st0['size'][R], st0['size'][Cn]) == ('many', 'one') else 0
+        if len(sp) == want:
+            return []
+        if sp:
+            g = [t for t, _, _ in _path_conditions(mod, sp[0][3], fn)]
+            return [('bad', sp[0][3], 'column spread under `%s`' % (u(g[-1])[:120] if g else 'no condition'),
+                     'the single column index is copied once per row although %s: the copy is meant for a[[r0, r1, ...], c] only; '
+                     'for a scalar row the row index is a 0-d array (not iterable), for paired index arrays the result is a 2-D array of '
+                     'columns and the flat index / the result has the wrong shape' % label)]
+        return [('bad', fn, 'spread of a single column index over several rows',
+                 'with several rows and ONE column (a[[r0, r1, ...], c]) the column is not copied once per row before %s: the in-place offset '
+                 'of a negative column (columns += lengths[rows]) cannot be stored into the one-element array (ValueError instead of the '
+                 'last elements)' % H)]
+
+    rule = 'C05.D1.row-bounds.spread'
+    anybad, anyunk = _run_cases(ck, rule, mod, F, W, cases, judge,
+                                'a single column index is spread over the rows exactly when there are several rows and one column; '
+                                'no configuration refusal is reachable with lengths and starts supplied')
+
+
+def bind_cases(ck, mod, rule, F, callers, what):
+    """A helper of the read path under the None-ness of its optional parameters at the call sites of the read
+    path: no refusal (raise) is reached for that configuration and no parameter that is None there is used as a
+    value."""
+    fn = mod.functions.get(F)
+    if fn is None:
+        return
+    bind = _call_binding(mod, F, callers)
+    if not bind:
+        return
+    W = _CaseWalk(mod, fn)
+    label = ', '.join('%s %s' % (p_, 'omitted (None)' if v else 'supplied') for p_, v in sorted(bind.items()))
+
+    def judge(lab, st0, ev, end, node):
+        if end == 'raise':
+            en = _exc_name(node)
+            if en == 'IndexError':
+                return 'neutral'
+            cond = [t for t, _, _ in _path_conditions(mod, node, fn)]
+            return [('bad', node, 'raise %s%s' % (en, (' under `%s`' % u(cond[-1])[:80]) if cond else ''),
+                     'the refusal is reached for the arguments %s passes (%s): %s' % (what, label, 'every such read raises %s' % en))]
+        for e in ev:
+            if e[0] == 'none-use':
+                return [('bad', e[3], u(e[3])[:160], '`%s` is None for the arguments %s passes (%s) and is used as a value here; '
+                         'the supplied argument is discarded / the conversion works on None' % (e[1], what, label))]
+        return []
+
+    _run_cases(ck, rule, mod, F, W, [(label, {'none': dict(bind)})], judge,
+               'no configuration refusal and no use of an omitted parameter is reachable for the arguments of the read path')
+
+
+def _over_param(e, A):
+    """The expression iterates over / maps the parameter A itself."""
+    for n in ast.walk(e):
+        if isinstance(n, ast.comprehension) and isinstance(n.iter, ast.Name) and n.iter.id == A:
+            return n
+        if isinstance(n, ast.Call) and call_name(n) == 'map' and len(n.args) == 2 and isinstance(n.args[1], ast.Name) and n.args[1].id == A:
+            return n
+    return None
+
+
+class _InitWalk(_CaseWalk):
+    """RaggedArray.__init__(self, array, lengths=None, ...)."""
+
+    def __init__(self, mod, fn):
+        ps = params(fn)
+        self.selfn, self.A = ps[0], ps[1]
+        self.LP = 'lengths' if 'lengths' in ps else ps[2]
+        _CaseWalk.__init__(self, mod, fn)
+
+    def ival(self, x, st):
+        k = _CaseWalk.ival(self, x, st)
+        if k is not None:
+            return k
+        for pat in ('len(%s)', '%s.shape[0]'):
+            if match(pat % self.A, x) is not None:
+                return (0, 0) if st['empty'] else (1, INF)
+        return None
+
+    def batom(self, x, st, ev, sure):
+        if isinstance(x, ast.Call) and (call_name(x) or '').split('.')[-1] == '_is_iterable' and len(x.args) == 1 and \
+                match('%s[0]' % self.A, x.args[0]) is not None:
+            if st['empty']:
+                return None
+            return st['iter']
+        return None
+
+    def scan(self, node, st, ev):
+        if not st['empty']:
+            return
+        for n in _unconditional(node):
+            if isinstance(n, ast.Subscript) and isinstance(n.ctx, ast.Load) and isinstance(n.value, ast.Name) and n.value.id == self.A and \
+                    isinstance(const_value(n.slice, None), int) and not isinstance(const_value(n.slice, None), bool):
+                ev.append(('index-empty', None, None, node))
+                return
+
+    def effect(self, s, st, ev):
+        if not isinstance(s, ast.Assign):
+            return
+        A, LP, sn = self.A, self.LP, self.selfn
+        for t in s.targets:
+            if not (isinstance(t, ast.Attribute) and isinstance(t.value, ast.Name) and t.value.id == sn):
+                continue
+            v = self.xp(s.value, st)
+            handler = any(e[0] == 'handler' for e in ev)
+            if t.attr == '_data':
+                kind = 'unknown'
+                if isinstance(v, ast.Call) and call_name(v) in ('np.concatenate', 'np.hstack', 'np.vstack') and v.args and A in names_loaded(v.args[0]):
+                    kind = 'concat'
+                elif _is_coercion(v, A) or (isinstance(v, ast.Call) and call_name(v) in ('np.array', 'np.asarray', 'np.asanyarray') and v.args and
+                                            isinstance(v.args[0], ast.Name) and v.args[0].id == A):
+                    kind = 'asis'
+                elif handler:
+                    kind = 'fallback'
+                ev.append(('set', 'data', kind, s))
+            elif t.attr == 'lengths':
+                kind = 'unknown'
+                inner = v
+                if isinstance(v, ast.Call) and call_name(v) in ('np.array', 'np.asarray', 'np.fromiter') and v.args:
+                    inner = v.args[0]
+                elif isinstance(v, ast.Call) and isinstance(v.func, ast.Attribute) and v.func.attr == 'copy':
+                    inner = v.func.value
+                if isinstance(inner, ast.Call) and call_name(inner) == 'list' and len(inner.args) == 1:
+                    inner = inner.args[0]
+                g = _over_param(inner, A)
+                if isinstance(inner, ast.Name) and inner.id == LP and inner is not v:
+                    kind = 'given'
+                elif g is not None:
+                    if isinstance(g, ast.Call) and u(g.args[0]) == 'len':
+                        kind = 'per-row'
+                    elif isinstance(g, ast.comprehension) and isinstance(inner, (ast.ListComp, ast.GeneratorExp)) and isinstance(g.target, ast.Name) and \
+                            any(match(p_ % g.target.id, inner.elt) is not None for p_ in ('len(%s)', '%s.shape[0]', 'np.shape(%s)[0]')):
+                        kind = 'per-row'
+                elif isinstance(inner, (ast.List, ast.Tuple)) and len(inner.elts) == 1 and \
+                        any(match(p_ % A, inner.elts[0]) is not None for p_ in ('len(%s)', '%s.shape[0]', '%s.size')):
+                    kind = 'single'
+                elif (isinstance(inner, (ast.List, ast.Tuple)) and not inner.elts and inner is not v) or \
+                        (isinstance(v, ast.Call) and call_name(v) in ('np.zeros', 'np.empty') and v.args and const_value(v.args[0], None) == 0):
+                    kind = 'empty'
+                ev.append(('set', 'lengths', kind, s))
+
+
+def init_cases(ck, mod):
+    """How the constructor reads its input: nested rows (lengths omitted, first entry iterable) are concatenated
+    and their lengths measured row by row; a flat sequence of scalars is one row; an empty input has no rows;
+    flat data plus lengths is taken as it is with the caller's lengths."""
+    rule = 'C05.D7.constructor-cases'
+    q = CLS + '.__init__'
+    fn = mod.functions.get(q)
+    if fn is None or len(params(fn)) < 3:
+        return
+    W = _InitWalk(mod, fn)
+    A, LP = W.A, W.LP
+    cases = [('nested rows, lengths omitted', {'empty': False, 'iter': True, 'none': {LP: True}}, ('concat', 'per-row')),
+             ('flat sequence of scalars, lengths omitted', {'empty': False, 'iter': False, 'none': {LP: True}}, ('asis', 'single')),
+             ('empty input, lengths omitted', {'empty': True, 'iter': None, 'none': {LP: True}}, ('asis', 'empty')),
+             ('flat data of scalars plus lengths', {'empty': False, 'iter': False, 'none': {LP: False}}, ('asis', 'given')),
+             ('flat data of multi-dimensional elements plus lengths', {'empty': False, 'iter': True, 'none': {LP: False}}, ('asis', 'given'))]
+    expect = {c[0]: c[2] for c in cases}
+    names = {'concat': 'the concatenation of the rows (np.concatenate(array))', 'asis': 'the input taken as the flat data (np.array(array))',
+             'per-row': 'one length per row ([len(row) for row in array])', 'single': 'one row ([len(array)])', 'empty': 'no rows ([])',
+             'given': "the caller's lengths (np.array(lengths))", 'fallback': 'the object-array fallback'}
+
+    def judge(label, st0, ev, end, node):
+        if end == 'raise':
+            return 'neutral'
+        if end == 'opaque':
+            return [('unknown', 'statement not followed: %s' % u(node)[:80])]
+        out = []
+        for e in ev:
+            if e[0] == 'index-empty':
+                return [('bad', e[3], u(e[3])[:120], '`%s[0]` is evaluated although the input is empty: RaggedArray([]) raises IndexError '
+                         'instead of giving the array without rows' % A)]
+        wd, wl = expect[label]
+        for slot, want in (('data', wd), ('lengths', wl)):
+            sets = [e for e in ev if e[0] == 'set' and e[1] == slot]
+            if not sets:
+                out.append(('unknown', 'no assignment of self.%s on a path' % ('_data' if slot == 'data' else 'lengths')))
+                continue
+            e = sets[-1]
+            k = e[2]
+            if k == want or (want == 'concat' and k == 'fallback'):
+                continue
+            if k == 'unknown':
+                out.append(('unknown', 'value of %s not recognised' % u(e[3])[:100]))
+                continue
+            out.append(('bad', e[3], u(e[3])[:160], 'for %s the constructor must set %s, but this statement - %s - is executed: the rows read '
+                        'back differ from the rows handed in' % (label, names[want], names.get(k, k))))
+        return out
+
+    _run_cases(ck, rule, mod, q, W, [(c[0], c[1]) for c in cases], judge,
+               'nested rows / flat scalars / empty input / flat data plus lengths are each interpreted as such')
+
+
+class _ShapeWalk(_CaseWalk):
+    def __init__(self, mod, fn):
+        self.selfn = params(fn)[0]
+        _CaseWalk.__init__(self, mod, fn)
+        sl = '%s.lengths' % self.selfn
+        self.uneq = [p_ % {'L': sl} for p_ in ('(%(L)s - %(L)s[0]).any()', '(%(L)s != %(L)s[0]).any()', 'len(set(%(L)s)) != 1', '1 < len(set(%(L)s))',
+                                               'len(np.unique(%(L)s)) != 1', '1 < len(np.unique(%(L)s))', '%(L)s.min() != %(L)s.max()',
+                                               '(%(L)s[0] != %(L)s).any()')]
+        self.eq = [p_ % {'L': sl} for p_ in ('(%(L)s == %(L)s[0]).all()', 'len(set(%(L)s)) == 1', 'len(np.unique(%(L)s)) == 1',
+                                             '%(L)s.min() == %(L)s.max()', '(%(L)s[0] == %(L)s).all()')]
+
+    def ival(self, x, st):
+        k = _CaseWalk.ival(self, x, st)
+        if k is not None:
+            return k
+        d = '%s._data' % self.selfn
+        for pat in ('len(%s.shape)', '%s.ndim', 'np.ndim(%s)'):
+            if match(pat % d, x) is not None:
+                return (1, 1) if st['nd1'] else (2, INF)
+        return None
+
+    def effect(self, s, st, ev):
+        # the value returned on this path, with the temporaries of the path substituted
+        if isinstance(s, ast.Return) and s.value is not None:
+            ev.append(('ret', None, self.xp(s.value, st), s))
+
+    def batom(self, x, st, ev, sure):
+        if any(match(p_, x) is not None for p_ in self.uneq):
+            return not st['equal']
+        if any(match(p_, x) is not None for p_ in self.eq):
+            return st['equal']
+        if isinstance(x, ast.Call) and (call_name(x) or '').split('.')[-1] == '_is_iterable' and len(x.args) == 1 and \
+                match('%s._data[0]' % self.selfn, x.args[0]) is not None:
+            return st['iter']
+        return None
+
+
+def shape_cases(ck, mod):
+    """shape = (rows, common row length or None[, element width or None]) over the cases (rows equally long or
+    not) x (scalar elements / array elements in 2-D flat data / array elements in an object array)."""
+    rule = 'C05.D6.observers.shape.cases'
+    q = CLS + '.shape'
+    fn = mod.functions.get(q)
+    if fn is None:
+        return
+    W = _ShapeWalk(mod, fn)
+    sn = W.selfn
+    SL, DATA = '%s.lengths' % sn, '%s._data' % sn
+    cases = []
+    for eq in (True, False):
+        for it, nd1, txt in ((False, True, 'scalar elements'), (True, False, 'array elements, flat data with element dimensions'),
+                             (True, True, 'array elements kept in a one-dimensional object array')):
+            cases.append(('rows %s, %s' % ('equally long' if eq else 'of different lengths', txt), {'equal': eq, 'iter': it, 'nd1': nd1}))
+
+    def pick(e, st):
+        for _ in range(3):
+            if isinstance(e, ast.IfExp):
+                t = W.truth(e.test, st, [])
+                if t is None:
+                    return None
+                e = e.body if t else e.orelse
+            else:
+                break
+        return e
+
+    def judge2(label, st0, ev, end, node):
+        if end == 'raise':
+            return 'neutral'
+        r = [e for e in ev if e[0] == 'ret']
+        if end != 'return' or not r:
+            return [('unknown', 'shape does not end in a return of a value on a path')]
+        v = r[-1][2]
+        st = _cp_state(st0)
+        st.setdefault('env', {})
+        st.setdefault('none', {})
+        v = pick(v, st)
+        if not isinstance(v, ast.Tuple):
+            return [('unknown', 'result of shape is not a tuple display: %s' % u(v)[:80] if v is not None else 'result of shape not read')]
+        want_n = 3 if st0['iter'] else 2
+        con = u(node)[:160]
+        if len(v.elts) != want_n:
+            if len(v.elts) in (2, 3):
+                return [('bad', node, con, 'for %s shape must have %d entries (a third entry - the element width - exactly when the elements '
+                         'are arrays themselves); this return has %d' % (label, want_n, len(v.elts)))]
+            return [('unknown', 'result of shape has %d entries' % len(v.elts))]
+        out = []
+        e1 = pick(v.elts[1], st)
+        if e1 is None:
+            out.append(('unknown', 'second entry of shape not read: %s' % u(v.elts[1])[:80]))
+        else:
+            common = _classify(e1, ['%s[0]' % SL, 'int(%s[0])' % SL, '%s.max()' % SL, '%s.min()' % SL, '%s[-1]' % SL], {sn})[0] == 'match'
+            if st0['equal']:
+                if _is_none(e1):
+                    out.append(('bad', node, con, 'all rows are equally long: shape[1] must be that length (self.lengths[0]), this path returns None'))
+                elif not common:
+                    out.append(('unknown', 'second entry of shape not recognised: %s' % u(e1)[:80]))
+            else:
+                if common:
+                    out.append(('bad', node, con, 'the rows differ in length: shape[1] must be None, this path returns the length of one row'))
+                elif not _is_none(e1):
+                    out.append(('unknown', 'second entry of shape not recognised: %s' % u(e1)[:80]))
+        if want_n == 3:
+            e2 = pick(v.elts[2], st)
+            if e2 is None:
+                out.append(('unknown', 'third entry of shape not read: %s' % u(v.elts[2])[:80]))
+            else:
+                width = _classify(e2, ['%s.shape[1]' % DATA, '%s[0].shape[0]' % DATA, 'len(%s[0])' % DATA], {sn})[0] == 'match'
+                if st0['nd1']:
+                    if width:
+                        out.append(('bad', node, con, 'the flat data is a one-dimensional object array here: it has no shape[1] (IndexError); '
+                                    'the third entry must be None'))
+                    elif not _is_none(e2):
+                        out.append(('unknown', 'third entry of shape not recognised: %s' % u(e2)[:80]))
+                else:
+                    if _is_none(e2):
+                        out.append(('bad', node, con, 'the flat data carries the element dimensions: the third entry of shape must be the element '
+                                    'width (self._data.shape[1]), this path returns None'))
+                    elif not width:
+                        out.append(('unknown', 'third entry of shape not recognised: %s' % u(e2)[:80]))
+        return out
+
+    _run_cases(ck, rule, mod, q, W, cases, judge2,
+               'shape[1] is the common row length exactly when all rows are equally long; the element width is reported exactly for array elements')
+
+
 def check(ck):
     mod = ck.repo.mod(RA)
     d7_constructor_and_lists(ck, mod)
@@ -2912,4 +4160,6 @@ def check(ck):
     d4_index_space(ck, mod)
     d5_where(ck, mod)
     d5_index_dtype(ck, mod)
+    init_cases(ck, mod)
+    shape_cases(ck, mod)
     return EXPLANATION
